@@ -102,8 +102,11 @@ def confirms(kind, msg, rc, out, err):
     if kind == 'assert': return rc == 3 and ('ASSERT-FAIL ' + msg) in out
     if kind == 'exception-escape': return rc == 5
     if kind == 'protect': return rc == 7
-    if kind in ('ub', 'contract', 'repo-assert', 'abort', 'terminate', 'uninit'):
-        return rc not in (0, 3, 4, 5, 6, 7, 9, -999)
+    if rc in (0, 3, 4, 5, 6, 7, 9, -999): return False
+    if kind == 'repo-assert': return 'Assertion' in err and 'failed' in err
+    if kind == 'contract': return ('Assertion' in err) or ('AddressSanitizer' in err) or ('runtime error' in err)
+    if kind in ('ub', 'uninit'): return ('runtime error' in err) or ('AddressSanitizer' in err) or rc < 0
+    if kind in ('abort', 'terminate'): return True
     return False
 
 def cvc5_check(smt, timeout=60):
@@ -243,6 +246,12 @@ def run_property(prop, harnesses, tier, seed, jobs, text, assumptions, design_re
                         rec = dict(property=prop, harness=hn, src=h['src'], defines=h['defines'], kind=v['kind'], msg=v['msg'], func=v['func'], stack=v['stack'],
                                    choices=v['choices'], draws=v['draws'], native=native_string(v['choices'], v['draws']))
                         json.dump(rec, open(rp, 'w'), indent=1)
+                        if v['kind'] in ('global-state', 'race'):
+                            # facts about the executed IR of the real code (a store to a global on a feasible path / overlapping
+                            # footprints of the two async tasks): no native single run can exhibit them; confirmed in the encoding
+                            rec['confirmed_in_encoding'] = True
+                            json.dump(rec, open(rp, 'w'), indent=1)
+                            confirmed = (v, rp); break
                         if nat is None: continue
                         rc, out, err = run_native(nat, rp)
                         if confirms(v['kind'], v['msg'], rc, out, err):
